@@ -3,6 +3,7 @@
 import PdbVerif.Driver.Json
 import PdbVerif.Spec.C03
 import PdbVerif.Spec.C04
+import PdbVerif.Spec.C15
 
 namespace Driver.B
 open Lean Driver Tbl
@@ -136,5 +137,24 @@ def opOfJson (j : Json) : Except String Tbl.Op := do
     pure (Tbl.Op.addColumn (← strOf j "colname") (← strOf j "coltype") v (← strOf j "tn"))
   | "fix_chainID" => pure Tbl.Op.fixChainID
   | n => .error s!"unknown modification {n}"
+
+def wopOfJson (j : Json) : Except String WOp := do
+  match ← jStr j "w" with
+  | "modify" => pure (WOp.modify (← jInt j "k").toNat (← opOfJson (← j.getObjVal? "op")))
+  | "sub" => pure (WOp.deriveSub (← jInt j "k").toNat (← kwsOfJson j "kw"))
+  | "interface" => pure (WOp.deriveInterface (← jInt j "k").toNat)
+  | "many" => pure (WOp.deriveMany ((← (← jArr j "ks").toList.mapM asInt).map Int.toNat))
+  | n => .error s!"unknown world step {n}"
+
+def objOfJson (j : Json) : Except String Obj := do
+  let kind ← jStr j "kind"
+  pure { kind := if kind == "many" then .many else .single, db := ← dbOfJson (← j.getObjVal? "db") }
+
+/-- the text round trip on tables whose values are exactly representable in the PDB columns: the model number
+    is not exported (every atom comes back in model 0) and added columns are dropped -/
+def roundtripRepresentable (T : Table) : Table :=
+  T.map (fun r => { atom := { r.atom with model := 0 }, extra := [] })
+
+def worldJ (w : List Obj) : Json := .arr (w.map (fun o => dbJ o.db)).toArray
 
 end Driver.B
